@@ -1052,3 +1052,25 @@ Fixpoint run_notifications {R} (m : mstate) (l : list (notification R)) : list (
   | [] => []
   | n :: r => let '(m', d) := notify_step m n in d :: run_notifications m' r
   end.
+
+(* ------------------------------------------------------------------------------------------ *)
+(* The documented meaning of the summarising helpers, as pure functions of the partition list  *)
+(* ------------------------------------------------------------------------------------------ *)
+
+(* topicsbystatus: status name -> the topics that have a partition in that status (each once).  [classify] above
+   is this fold, run over the Status / Topic fields of the listed partitions. *)
+Definition topics_by_status (name : Z -> string) (l : list (Z * string)) : list (string * list string) :=
+  fold_left (fun m p => insert_topic (name (fst p)) (snd p) m) l [].
+
+Definition topics_in (m : list (string * list string)) (s : string) : list string :=
+  match assoc s m with Some ts => ts | None => [] end.
+
+(* partitioncounts: how many listed partitions are in each problem state; OK partitions are not counted, every status
+   outside the table is "unknown" *)
+Definition count_key (z : Z) : option string :=
+  if (z =? 1)%Z then None
+  else if (z =? 2)%Z then Some "warn" else if (z =? 4)%Z then Some "stop"
+  else if (z =? 5)%Z then Some "stall" else if (z =? 6)%Z then Some "rewind" else Some "unknown".
+
+Definition partition_count (l : list Z) (key : string) : Z :=
+  Z.of_nat (List.length (filter (fun z => match count_key z with Some k => String.eqb k key | None => false end) l)).
